@@ -30,8 +30,9 @@ BATCH_RATES = {
     "K4": (0.20, 0.05, 0.08, 0.08, 0.08),
     "K5": (0.28, 0.05, 0.03, 0.00, 0.00),   # scripted: one op of the alphabet - produce; disturb; re-ask
     "K6": (0.10, 0.00, 0.00, 0.00, 0.00),   # scripted: one table, one fault at a chosen point, then re-ask
+    "K7": (0.00, 0.00, 0.00, 0.00, 0.00),   # scripted: tour over many tables with re-visits (cache capacity / key mix-ups)
 }
-SCRIPTED = ("K5", "K6")
+SCRIPTED = ("K5", "K6", "K7")
 
 
 def splitmix64(*parts):
@@ -100,6 +101,8 @@ class Generator:
             self._script_k5(job["op"])
         elif batch == "K6":
             self._script_k6(job["table"], job["fault"])
+        elif batch == "K7":
+            self._script_k7()
 
     # ------------------------------------------------------------------ configuration (swarm)
     def _draw_config(self):
@@ -120,6 +123,8 @@ class Generator:
         length = r.randint(3, 12) if r.random() < 0.5 else r.randint(13, 40)
         if wide:
             length = r.randint(30, 70)
+        elif self.tier == "thorough" and r.random() < 0.05:
+            length = r.randint(70, 110)
         m, d, inv, rd, it = BATCH_RATES[self.batch]
         jitter = lambda x: x * r.choice([0.5, 1.0, 1.0, 1.5])  # noqa: E731
         groups = {n: [Lt.random_group(r, n) for _ in range(r.choice([1, 2, 2, 3]))] for n in ns}
@@ -1072,6 +1077,32 @@ class Generator:
                     return steps
             return []
         return go
+
+    def _script_k7(self):
+        """Tour over 9-20 distinct tables of one kind (or both) in one process, with re-visits of recently and of
+        long-ago used tables in between: what a bounded / keyed / ordered cache needs in order to go wrong."""
+        r = self.rng
+        allt = [(n, c) for n in (2, 3, 4, 5, 6) for c in VALID[n]]
+        tables = r.sample(allt, r.randint(9, 20))
+        kinds = r.choice([("stabilizer",), ("mub",), ("stabilizer", "mub")])
+        self.cfg.update({"ns": sorted({n for n, _ in tables}), "p_invalid": 0.0, "length": 0,
+                         "conns": {n: [c for m, c in tables if m == n] for n, _ in tables}})
+        for n in self.cfg["ns"]:
+            self.cfg["groups"].setdefault(n, [Lt.random_group(r, n)])
+        visited = []
+        todo = list(tables)
+        for _ in range(r.randint(25, 45)):
+            x = r.random()
+            if todo and (not visited or x < 0.5):
+                t = todo.pop(0)
+            elif x < 0.8:
+                t = r.choice(visited[-3:])          # recently used
+            else:
+                t = r.choice(visited)               # possibly long ago
+            if t not in visited:
+                visited.append(t)
+            key = f"{r.choice(kinds)}{t[0]}-{t[1]}"
+            self.queue.append(lambda ex, key=key: self.gen_sibling(ex, key))
 
     def _script_k6(self, table, fault):
         """One table, cold; one fault at a chosen point of the call that loads it; then ask again (same
